@@ -29,6 +29,7 @@ FACTMAP = {
             "order_Program_restoreTerminalState", "body_Program_initCancelReader", "order_standardRenderer_stop",
             "order_standardRenderer_start", "body_Program_readLoop", "body_Program_waitForReadLoop", "body_standardRenderer_halt"],
     "C18": ["body_Program_handleSignals", "body_Program_handleResize", "body_Program_listenForResize", "body_Program_checkResize",
+            "body_Program_initInput",   # ttyOutput (whether size reporting exists at all) is decided there
             "el_case_windowSizeMsg", "order_Program_ReleaseTerminal", "order_Program_RestoreTerminal", "order_Program_Run"],
     "C19": ["body_WithFPS", "calls", "body_standardRenderer_listen", "body_standardRenderer_start", "body_standardRenderer_halt", "locks"],
     "C20": ["body_Every", "body_Tick"],
